@@ -184,7 +184,67 @@ def gen_mean_matrix(r, rows, cols, st, w, wstyle):
     return a, extra
 
 
-MEAN_STYLES = STYLES + ["const", "arc", "sigma"]
+def gen_short(r, rows, cols):
+    """samples and weights whose weighted resultant has a prescribed small length L, log-uniform over [1.2e-6, 1e-2], and a
+    direction phi away from 0 (the argument of a short resultant is ill-conditioned: tolerances scale with sum|w|/L).
+    Returns (a, w, wstyle, extra) or None when the shape does not allow it."""
+    if cols < 2:
+        return None
+
+    def length():
+        return math.exp(r.uniform(math.log(1.2e-6), math.log(1e-2)))
+
+    def direction():
+        return r.choice([-1, 1]) * r.uniform(0.2, 3.0)
+
+    def maybe_shift(x):
+        return x + 2.0 * math.pi * r.choice([0, 0, 0, 1, -1, 2, -3])
+
+    kinds = []
+    if cols == 2:
+        kinds = ["antipodal-unequal-weights", "nearly-antipodal-equal-weights"]
+    else:
+        kinds = ["almost-uniform-circle"]
+        if cols % 2 == 1:
+            kinds += ["cancelling-unscented", "cancelling-unscented"]
+    kind = r.choice(kinds)
+    a, Ls = [], []
+    if kind == "antipodal-unequal-weights":
+        L = length()
+        w = [(1.0 + L) / 2.0, (1.0 - L) / 2.0]
+        if r.random() < 0.5:
+            w.reverse()
+        for _ in range(rows):
+            phi = direction()
+            row = [phi, phi + math.pi] if w[0] > w[1] else [phi + math.pi, phi]
+            a.append([maybe_shift(x) for x in row]); Ls.append(L)
+    elif kind == "nearly-antipodal-equal-weights":
+        w = [0.5, 0.5]
+        for _ in range(rows):
+            L, phi = length(), direction()
+            h = math.pi / 2 - math.asin(L)
+            a.append([maybe_shift(phi + h), maybe_shift(phi - h)]); Ls.append(L)
+    elif kind == "cancelling-unscented":
+        n = (cols - 1) // 2
+        s = r.uniform(0.25, 0.95) * n                 # n + lambda in (0, n): negative central weight
+        w = [1.0 - n / s] + [1.0 / (2.0 * s)] * (2 * n)
+        for _ in range(rows):
+            L, phi = length(), direction()
+            dl = math.acos(1.0 - s * (1.0 - L) / n)    # w0 + (n/s) cos(dl) = L
+            a.append([maybe_shift(x) for x in [phi] + [phi + dl] * n + [phi - dl] * n]); Ls.append(L)
+    else:
+        L, psi = length(), r.uniform(-3.0, 3.0)
+        th = [2.0 * math.pi * k / cols for k in range(cols)]
+        w = [1.0 / cols + (2.0 * L / cols) * math.cos(t - psi) for t in th]
+        for _ in range(rows):
+            rho = r.uniform(-3.0, 3.0)
+            while abs(math.remainder(psi + rho, 2 * math.pi)) < 0.2:
+                rho = r.uniform(-3.0, 3.0)
+            a.append([maybe_shift(t + rho) for t in th]); Ls.append(L)
+    return a, w, "short:" + kind, {"target_length": Ls}
+
+
+MEAN_STYLES = STYLES + ["const", "arc", "sigma", "short", "short"]
 W_STYLES = ["uniform", "positive", "skewed", "unscented", "unscented-scaled"]
 
 
@@ -201,8 +261,12 @@ def gen_mean(g, shapes, n_extra, stats):
                 wstyle = r.choice(["uniform", "positive", "skewed"])       # positive weights
             if st == "sigma" and cols >= 3 and cols % 2 == 1:
                 wstyle = r.choice(["unscented", "unscented-scaled"])
-            w, wstyle = weights(r, cols, wstyle)
-            a, extra = gen_mean_matrix(r, rows, cols, st, w, wstyle)
+            short = gen_short(r, rows, cols) if st == "short" else None
+            if short is not None:
+                a, w, wstyle, extra = short
+            else:
+                w, wstyle = weights(r, cols, wstyle)
+                a, extra = gen_mean_matrix(r, rows, cols, "mixed" if st == "short" else st, w, wstyle)
             L = [math.hypot(*resultant(a[i], w)) for i in range(rows)]
             if min(L) >= 1e-6:
                 break
@@ -213,12 +277,13 @@ def gen_mean(g, shapes, n_extra, stats):
         base_idx = len(cases)
         cases.append((line_mean(a, w), dict(meta, role="base")))
         # sibling 1: 2 pi shifts of some samples
-        a2 = [[(shift_value(r, x) if r.random() < 0.6 else x) for x in row] for row in a]
+        sh = (lambda x: x + 2.0 * math.pi * r.choice([1, -1, 2, -3, 5])) if st == "short" else (lambda x: shift_value(r, x))
+        a2 = [[(sh(x) if r.random() < 0.6 else x) for x in row] for row in a]
         if a2 == a:
             a2[0][0] = shift_value(r, a[0][0])
         cases.append((line_mean(a2, w), dict(meta, role="shift", of=base_idx)))
         # sibling 2: a common rotation d_i of all samples of row i
-        d = [gen_angle(r, r.choice(["small", "huge", "branch", "dyadic"])) for _ in range(rows)]
+        d = [gen_angle(r, r.choice(["small", "dyadic"] if st == "short" else ["small", "huge", "branch", "dyadic"])) for _ in range(rows)]
         a3 = [[x + d[i] for x in a[i]] for i in range(rows)]
         L3 = [math.hypot(*resultant(a3[i], w)) for i in range(rows)]
         if min(L3) >= 1e-6:
@@ -329,6 +394,9 @@ def check_mean(idx, cases, hres, dres, stats, problems):
         if L < 1e-6:
             stats["skipped_small_resultant"] = stats.get("skipped_small_resultant", 0) + 1
             continue                                   # outside the property's quantifier
+        dec = "1e%d" % math.floor(math.log10(L)) if L < 1.0 else ">=1"
+        stats.setdefault("resultant_length_decades", {})
+        stats["resultant_length_decades"][dec] = stats["resultant_length_decades"].get(dec, 0) + 1
         cond = math.fsum(abs(wk) * (1.0 + abs(x)) for x, wk in zip(a[i], w)) / L
         tol = 16 * EPS * cond + 16 * EPS
         sk = mean_key(cols, v, a[i][0])
@@ -508,7 +576,8 @@ def run(ctx):
     ctx.coverage.update({
         "evaluations": len(cases), "distinct_nontrivial": len(distinct),
         "rule": "every shape rows 1..4 x columns 1..6 crossed with every angle style (small, huge up to 1e6*pi, rounded multiples of pi, "
-                "+-pi and neighbours, dyadic, tiny/zero/subnormal, mixed; for the mean also constant rows, arcs < half turn, sigma-point layouts) "
+                "+-pi and neighbours, dyadic, tiny/zero/subnormal, mixed; for the mean also constant rows, arcs < half turn, sigma-point layouts, and prescribed short resultants of length log-uniform in "
+                "[1.2e-6, 1e-2]: antipodal pairs with unequal weights, nearly antipodal pairs, near-cancelling unscented sets, almost uniform circles) "
                 "plus random extra cases; each base case is followed by sibling cases (2 pi-shifted arguments; common rotation) run through the "
                 "real function again; weights: single 1, uniform, positive normalised, skewed over 6 decades, unscented with negative central "
                 "weight, scaled unscented (alpha 1e-3..1e-1); rows with resultant length < 1e-6 regenerated. non-trivial = some sum/sample "
